@@ -61,6 +61,7 @@ theorem benignP_doBodyActs (p : Prog) (s : St) (sys : Nat) (k : Kind) (i : Nat) 
 theorem benignP_doExclActs (p : Prog) (s : St) (sys i : Nat) : BenignP s (doExclActs p s sys i) := by
   unfold doExclActs; split
   · exact benignP_push (same_emit _ _).benignS _ (inert_one rfl)
+  · exact benignP_push (BenignS.refl _) _ (inert2 rfl rfl)
   · split
     · exact benignP_wq_push (benignS_enqueue _ _) _ _ (inert2 rfl rfl)
     · exact benignP_wq_push (benignS_enqueue _ _) _ _ (inert_one rfl)
